@@ -117,6 +117,7 @@ func VerifC09Concurrent() {
 	g := verifParam("G", 2)
 	granted := make([]uint64, g)
 	var wg sync.WaitGroup
+	gate := make(chan struct{}) // all reservations start together (matters for the native replay only)
 	for i := 0; i < g; i++ {
 		n := verifUint64(verifName("n", i))
 		verifAssume(n >= 1)
@@ -124,11 +125,13 @@ func VerifC09Concurrent() {
 		wg.Add(1)
 		go func(i int, n uint64) {
 			defer wg.Done()
+			<-gate
 			if l.Reserve(n) == nil {
 				granted[i] = n
 			}
 		}(i, n)
 	}
+	close(gate)
 	wg.Wait()
 	var total uint64
 	for _, x := range granted {
